@@ -658,22 +658,25 @@ def chunks(seq, k):
 def workload(tier, seed):
     quick = tier == "quick"
     for cls in ("CNF", "OPB"):
-        for N in range(0, 6):
+        for N in range(0, 6 if quick else 7):
             yield "op", {"cls": cls, "N": N}
-        for n in range(0, 5):
+        for n in range(0, 5 if quick else 6):
             masks = list(range(1 << (n * (n - 1) // 2)))
+            if n == 5:
+                import random as _r
+                masks = sorted(_r.Random("c03gop-%d" % seed).sample(masks, 200))
             for ch in chunks(masks, 4):
                 yield "gop", {"cls": cls, "n": n, "masks": ch, "as_nx": False}
             if n <= 3:
                 yield "gop", {"cls": cls, "n": n, "masks": masks, "as_nx": True}
-        for n in range(0, 6):
+        for n in range(0, 6 if quick else 7):
             masks = list(range(1 << (n * (n - 1) // 2)))
-            for ch in chunks(masks, 64):
+            for ch in chunks(masks, 64 if n < 6 else 1024):
                 yield "peb", {"cls": cls, "n": n, "masks": ch}
         for n in range(0, 5):
             masks = list(range(1 << (n * (n - 1) // 2)))
             for ch in chunks(masks, 8):
-                yield "stone", {"cls": cls, "n": n, "masks": ch, "smax": 3}
+                yield "stone", {"cls": cls, "n": n, "masks": ch, "smax": 3 if quick else 4}
         import random
         r = random.Random("c03-%d" % seed)
         for n in range(1, 5):
@@ -692,7 +695,7 @@ def workload(tier, seed):
             yield "cpls", {"cls": cls, "triples": ch}
         for N in range(0, 7 if not quick else 6):
             yield "ram", {"cls": cls, "N": N}
-        for N in range(0, 10):
+        for N in range(0, 10 if quick else 15):
             lens2 = [[a, b] for a in range(1, 5) for b in range(1, 5)]
             yield "vdw", {"cls": cls, "N": N, "ncol": 2, "lengths_list": lens2}
             if N <= 6:
